@@ -12,7 +12,7 @@
  "cflags": ["-DCHECK_MAIN"],
  "kind": "bounded",
  "bound": "association lists: T,T  T,default  default,T  default,default  T,T,default  T,T,T  <non-type>,default",
- "timeout": 200,
+ "timeout": 600,
  "expects": ["assertion_verif"],
  "assumes": ["typename() is a stand-in: the single token `int` is a type name whose type / qualifiers the harness chose from post_common.h's universe (incl. function and incomplete types, pointers to everything, qualified versions), anything else is not a type name; variably modified types are outside the universe",
              "assignexpr() is a stand-in consuming one token and returning heap-allocated opaque operands (the controlling expression has an arbitrary decayed type, lvalue-ness and qualifiers)",
